@@ -2,11 +2,12 @@
    the reference layout (Asm/LayoutSpec.v) after k statements, and the three kinds of transition:
    append to the active region (immediately, or a placeholder plus a pending task), a new table entry, a region switch.
    E = the FINAL symbol table of the reference; G = the dictionary of the bytes the reference assigns (in E) to the
-   statements placed so far. *)
+   statements placed so far.  A pending instruction task may be of any template (PendG: the statement as written, the
+   position of the evaluated operand, the tree kept for it and the relation stg between the two). *)
 From Coq Require Import ZArith NArith PeanoNat List Bool Lia ZifyBool ZifyNat ZifyN.
 From Trion Require Import Text.Types Expr.I64 Expr.EvalModel Expr.Denote Expr.C08Sound Arm.Instr Arm.AsmStmtModel Arm.EncodeModel
   Mem.MapModel Mem.DictSpec Mem.MapProofs Mem.MapLemmas Mem.MapOccupied
-  Asm.CtxModel Asm.SegProofs Asm.LayoutSpec Asm.LayoutEval Asm.LayoutInstr Asm.LayoutDict Asm.ScopeProofs.
+  Asm.CtxModel Asm.SegProofs Asm.LayoutSpec Asm.LayoutEval Asm.LayoutInstr Asm.LayoutInstrD Asm.LayoutDict Asm.ScopeProofs.
 Import ListNotations.
 Open Scope N_scope.
 
@@ -62,7 +63,12 @@ Definition located (st : state) (t : task) : Prop :=
 Definition at_bytes (G : dict) (a : N) (bs : list N) : Prop :=
   forall x, a <= x -> x < a + mlen bs -> d_get G x = nth_error bs (N.to_nat (x - a)).
 
-(* what a pending task will write: the bytes the reference has at its address *)
+(* staged = direct, for one operand: whenever the ORIGINAL operand a0 evaluates completely in the final table, the operand
+   a1 the deferred statement keeps (the tree a failed evaluation left behind) evaluates to the same tree *)
+Definition stg (E : env) (a0 a1 : arg) : Prop := forall x, final_ev E a0 = (x, SComplete) -> final_ev E a1 = (x, SComplete).
+
+(* what a pending task will write: the bytes the reference has at its address.  An instruction task of ANY template:
+   args = the operands as written, the task keeps them with the evaluated operand (position eval_pos) replaced by a1 *)
 Definition PendG (E : env) (G : dict) (t : task) : Prop :=
   match t with
   | DataTask d false =>
@@ -70,9 +76,9 @@ Definition PendG (E : env) (G : dict) (t : task) : Prop :=
         ((0 <=? v)%Z && (v <=? dk_max (de_kind d))%Z = true) /\
         at_bytes G (de_addr d) (le_n (dk_size (de_kind d)) (Z.to_N v))
   | InstrTask ai false =>
-      exists a0 a1 v iF sF nF bF, ai_ast ai = mkAst [a1] 0 /\ is_branch (ai_instr ai) = true /\
-        fwd (rho E) a0 a1 /\ den64 (rho E) a0 = Some v /\
-        assemble_args (final_ev E) false (ai_addr ai) (ai_instr ai) (mkAst [a0] 0) = COk iF sF /\
+      exists args pos a0 a1 iF sF nF bF, ai_ast ai = mkAst (AsmStmtModel.set_nth pos a1 args) 0 /\ eval_pos (ai_instr ai) = Some pos /\
+        nth_error args pos = Some a0 /\ stg E a0 a1 /\
+        assemble_args (final_ev E) false (ai_addr ai) (ai_instr ai) (mkAst args 0) = COk iF sF /\
         enc_bytes iF 4 = EbOk nF bF /\ at_bytes G (ai_addr ai) bF
   | _ => False
   end.
@@ -138,7 +144,7 @@ Proof. destruct k; reflexivity. Qed.
 Lemma PendG_dom E G t x : PendG E G t -> in_task t x -> d_get G x <> None.
 Proof.
   unfold in_task. destruct t as [ai [|]|d [|]| |]; cbn [PendG task_addr task_size]; try contradiction.
-  - intros (a0 & a1 & v & iF & sF & nF & bF & EA & HB & F & D & AS & EN & AB) (H1 & H2).
+  - intros (args & pos & a0 & a1 & iF & sF & nF & bF & EA & HB & F & D & AS & EN & AB) (H1 & H2).
     apply enc_bytes_size in EN. destruct EN as (_ & EN). apply assemble_args_isz in AS.
     eapply at_bytes_dom; [exact AB|exact H1|]. unfold mlen. rewrite EN, AS. exact H2.
   - intros (a0 & v & F & D & R & AB) (H1 & H2). eapply at_bytes_dom; [exact AB|exact H1|]. rewrite len_le_n'. exact H2.
@@ -149,8 +155,8 @@ Lemma PendG_keep E G t b data : PendG E G t -> (forall x, b <= x -> x < b + mlen
 Proof.
   intros HP HF. pose proof (PendG_dom E G t) as HD. specialize (fun x => HD x HP). unfold in_task in HD.
   destruct t as [ai [|]|d [|]| |]; cbn [PendG task_addr task_size] in *; try contradiction.
-  - destruct HP as (a0 & a1 & v & iF & sF & nF & bF & EA & HB & F & D & AS & EN & AB).
-    exists a0, a1, v, iF, sF, nF, bF. repeat split; auto. apply at_bytes_keep; auto.
+  - destruct HP as (args & pos & a0 & a1 & iF & sF & nF & bF & EA & HB & F & D & AS & EN & AB).
+    exists args, pos, a0, a1, iF, sF, nF, bF. repeat split; auto. apply at_bytes_keep; auto.
     intros x H1 H2. apply HD. split; [exact H1|]. apply enc_bytes_size in EN. destruct EN as (_ & EN). apply assemble_args_isz in AS.
     unfold mlen in H2. rewrite EN, AS in H2. exact H2.
   - destruct HP as (a0 & v & F & D & R & AB). exists a0, v. repeat split; auto. apply at_bytes_keep; auto.
